@@ -45,10 +45,13 @@ def age_class(age):
     return 'young' if age < 35 else 'masters'
 
 
-def examine_point(row, c, age, carriers=('float',)):
-    """Compare the library with the oracle at one point.  Returns (violations, nontrivial?)."""
+def examine_point(row, c, age, carriers=('float',), spelling=None):
+    """Compare the library with the oracle at one point.  Returns (violations, nontrivial?).  `spelling` = (gender,
+    event) as the caller writes them (the scoring key is case-insensitive)."""
     g, e, te, A, Z, X, kind, esaa = row
     case = {'kind': 'score', 'gender': g, 'event': e, 'centi': c, 'age': age, 'esaa': esaa}
+    if spelling:
+        case['spelling'] = list(spelling)
     try:
         want = athlon.exact_points(row, c, age)
     except Undecidable:
@@ -67,7 +70,8 @@ def examine_point(row, c, age, carriers=('float',)):
             kw['age'] = age
         if esaa:              # True = the ESAA boys' 800 m row; 'noop' = the option given to a row it does not concern
             kw['esaa'] = True
-        r = call(athlib.athlon_score, g, e, value, **kw)
+        gs, es = spelling if spelling else (g, e)
+        r = call(athlib.athlon_score, gs, es, value, **kw)
         if want is None:
             # no factor defined for this event: only "no foreign exception" is demanded
             if r[0] == 'exc' and r[1] != 'ValueError':
@@ -223,11 +227,12 @@ def examine_sequence(case):
     reset_state()
     by = {(r[0], r[1], r[7]): r for r in all_rows()}
     out = []
-    for g, e, c, age, esaa in case['points']:
+    for pt in case['points']:
+        g, e, c, age, esaa = pt[:5]
         row = by.get((g, e, esaa or False))
         if row is None:
             continue
-        out = examine_point(row, c, age, ('float',))[0]
+        out = examine_point(row, c, age, ('float',), tuple(pt[5]) if len(pt) > 5 else None)[0]
     for v in out:
         v['sig'] = v['sig'] + ['interleaved-rows']
         v['case'] = case
@@ -253,10 +258,14 @@ def mixed_pass(ctx, rows):
         seg = []
         for ri, c, age in cases[i:i + 25]:
             row = rows[ri]
-            seg.append([row[0], row[1], c, age, row[7]])
+            sp = None
+            if row[1] == row[2] and rng.randrange(6) == 0:       # not for the veterans' aliases (upper case by definition)
+                sp = rng.choice([(row[0].lower(), row[1].lower()), (row[0], row[1].lower()), (row[0].lower(), row[1]),
+                                 (row[0], row[1].title())])
+            seg.append([row[0], row[1], c, age, row[7]] + ([list(sp)] if sp else []))
             ctx.count()
             n += 1
-            vs, nt, why = examine_point(row, c, age, ('float',))
+            vs, nt, why = examine_point(row, c, age, ('float',), sp)
             if vs:
                 for v in vs:
                     v['sig'] = v['sig'] + ['interleaved-rows']
